@@ -421,7 +421,8 @@ impl Ctrl {
             // its thread may be held up by the kernel side of a yield that runs on it and is stopped at a point
             // (the coroutine it resumed has yielded again: that subscribe runs on this thread)
             if let Some((k, _)) = g.kthread.get(&a.tid) {
-                if g.actors[*k].st == ASt::AtPoint {
+                // (... or which has itself resumed the coroutine again on this stack - fast_schedule - and waits for it)
+                if g.actors[*k].st == ASt::AtPoint || g.actors[*k].hosting.is_some() {
                     return true;
                 }
             }
